@@ -800,11 +800,12 @@ class CodeGen:
             case ast.ArrayInitializer():
                 length_bubble = yield from self.push_expr(self.r0, expr.length)
                 length = yield from length_bubble.get_fast(self.r0)
-                if not self.unchecked and not expr.type.el_type.byte_sized:
-                    # The byte-sized case will get properly handled by
+                if not self.unchecked and expr.type.el_type != DataType.BYTE:
+                    # The byte case will get properly handled by
                     # stack overflow check, but we need to deal with the
                     # possibility of integer overflow in get_array_size
-                    # messing up the check.
+                    # messing up the check.  This includes bool: the
+                    # bit-packed size of a small negative length is 0.
                     safe_length = self.add_label('safe_length')
                     yield asm.Jump(safe_length)
                     yield asm.Hleu(length, asm.IntLiteral(self.max_length(expr.type.el_type)))
